@@ -10,6 +10,13 @@ compare x op y for the 6 rich comparisons, same relations; forward/reflected are
         wrong receiver and a wrong method name flip the value.
 unary   -x +x ~x abs(x) on A / B(A), method defined in A, overridden in B or not.
 truth   not x, bool(x), x if-test, if-expression test, `x and 1`, `0 or x` with __bool__ in {-, T, F} x __len__ in {-, 0, 2}.
+hier    hierarchies beyond two levels: chain A <- B <- C with a mixin M (class C(M, B)); for the forward and for the
+        reflected (mirrored) method independently, WHERE it is defined:  - nowhere | A | AB (A, overridden in B) |
+        AC (A, overridden in C) | B | C | M (mixin only) | AM (A and mixin), each optionally with the most derived
+        definition returning NotImplemented; operand classes (L, R) in A.B A.C B.C B.B C.C C.A C.B, plus an unrelated
+        class U (own method absent / value / NotImplemented) or an int on either side.  Binary methods return
+        ('<defining class>.<method>', self.v); comparison methods return (self.v == 1) == <polarity of the defining
+        class>.  quick: operators + - < ==; thorough: all 13 binary and 6 comparison operators.
 aug     x <<= 2, x ^= 2, x @= 2, x += 2 with __iop__ in {-, returns self, returns a new object} x __op__ in {-, V}.
 
 CPython raising TypeError (unsupported operand) is "no claim".
@@ -176,15 +183,98 @@ def aug_cases():
                 yield case(f"ops/aug/i{m}/i{i}/f{f}", defs, "case__S__()")
 
 
+PLACE = {"-": "", "A": "A", "AB": "AB", "AC": "AC", "B": "B", "C": "C", "M": "M", "AM": "AM"}
+MRO_C = "CMBA"  # class C(M, B): C, M, B, A
+POL = {"A": "True", "B": "False", "C": "True", "M": "False", "U": "True"}
+
+
+def _placements():
+    for p in PLACE:
+        yield p, False
+        if p != "-":
+            yield p, True  # most derived definition returns NotImplemented
+
+
+def _hier_defs(kind, fname, rname, fpl, rpl, uspec):
+    """class source for A, B(A), M, C(M, B), U.  fpl / rpl = (placement, top_returns_NotImplemented)"""
+    methods = {c: [] for c in "ABCMU"}
+
+    def body(cls, name, ni):
+        if ni:
+            return f"    def __{name}__(self, o):\n        return NotImplemented\n"
+        if kind == "bin":
+            return f"    def __{name}__(self, o):\n        return ('{cls}.__{name}__', self.v)\n"
+        return f"    def __{name}__(self, o):\n        return (self.v == 1) == {POL[cls]}\n"
+
+    todo = [(fname, fpl)] if fname == rname else [(fname, fpl), (rname, rpl)]
+    for name, (pl, ni) in todo:
+        where = PLACE[pl]
+        top = next((c for c in MRO_C if c in where), None)
+        for c in where:
+            methods[c].append(body(c, name, ni and c == top))
+    for name, spec in uspec:
+        if spec != "-":
+            methods["U"].append(body("U", name, spec == "N"))
+    out = "class A__S__:\n    def __init__(self, v):\n        self.v = v\n" + "".join(methods["A"])
+    out += "class B__S__(A__S__):\n" + ("".join(methods["B"]) or "    pass\n")
+    out += "class M__S__:\n" + ("".join(methods["M"]) or "    pass\n")
+    out += "class C__S__(M__S__, B__S__):\n" + ("".join(methods["C"]) or "    pass\n")
+    out += "class U__S__:\n    def __init__(self, v):\n        self.v = v\n" + "".join(methods["U"])
+    return out
+
+
+HIER_PAIRS = ("A.B", "A.C", "B.C", "B.B", "C.C", "C.A", "C.B")
+
+
+def hier_cases(binops, cmpops):
+    allops = [("bin", sym, m, "r" + m) for sym, m in BINOPS.items() if sym in binops]
+    allops += [("cmp", sym, f, r) for sym, (f, r) in CMPOPS.items() if sym in cmpops]
+    pls = list(_placements())
+    for kind, sym, fname, rname in allops:
+        single = fname == rname  # == and !=
+        def tag(pl):
+            return pl[0] + ("n" if pl[1] else "")
+        # both operands from the hierarchy
+        for pair in HIER_PAIRS:
+            lc, rc = pair.split(".")
+            for fpl in pls:
+                for rpl in ([("-", False)] if single else pls):
+                    defs = _hier_defs(kind, fname, rname, fpl, rpl, ())
+                    key = f"ops/hier/{kind}/{fname}/{pair}/f{tag(fpl)}/r{tag(rpl)}"
+                    yield case(key, defs + f"def case__S__():\n    return {lc}__S__(1) {sym} {rc}__S__(2)\n", "case__S__()")
+        # unrelated class / int on one side: only the method of the hierarchy operand matters
+        for hc in "ABC":
+            for pl in pls:
+                for us in SPEC:
+                    # hierarchy operand on the right: its reflected method, U's forward method
+                    rp = pl
+                    defs = _hier_defs(kind, fname, rname, ("-", False) if not single else pl, rp, ((fname, us),))
+                    yield case(f"ops/hier/{kind}/{fname}/U.{hc}/u{us}/r{tag(pl)}",
+                               defs + f"def case__S__():\n    return U__S__(1) {sym} {hc}__S__(2)\n", "case__S__()")
+                    defs = _hier_defs(kind, fname, rname, pl, ("-", False), ((rname, us),))
+                    yield case(f"ops/hier/{kind}/{fname}/{hc}.U/f{tag(pl)}/u{us}",
+                               defs + f"def case__S__():\n    return {hc}__S__(1) {sym} U__S__(2)\n", "case__S__()")
+                defs = _hier_defs(kind, fname, rname, ("-", False) if not single else pl, pl, ())
+                yield case(f"ops/hier/{kind}/{fname}/int.{hc}/r{tag(pl)}",
+                           defs + f"def case__S__():\n    return 1 {sym} {hc}__S__(2)\n", "case__S__()")
+                defs = _hier_defs(kind, fname, rname, pl, ("-", False), ())
+                yield case(f"ops/hier/{kind}/{fname}/{hc}.int/f{tag(pl)}",
+                           defs + f"def case__S__():\n    return {hc}__S__(1) {sym} 2\n", "case__S__()")
+
+
 def cases(thorough):
     yield from binary_cases()
     yield from compare_cases()
     yield from unary_cases()
     yield from truth_cases()
     yield from aug_cases()
+    if thorough:
+        yield from hier_cases(set(BINOPS), set(CMPOPS))
+    else:
+        yield from hier_cases({"+", "-"}, {"<", "=="})
 
 
-STRIPES = 8
+STRIPES = 24
 
 
 def tasks(thorough, seed):
